@@ -2,6 +2,7 @@ import NeoFS.Generated.AccessIR
 import NeoFS.Model.AccessExpect
 import NeoFS.Lemmas.Access
 import NeoFS.Props.C03Defs
+import NeoFS.Lemmas.Threshold
 /-! # C03 — every mutating contract method is inert without its required witnesses
 
 `NeoFS.Generated.Access.methods` is regenerated from the Go sources on every run (one IR program per exported
@@ -70,10 +71,49 @@ theorem safe_methods_pure : methods.all (fun m => !m.safe || syntacticallyPure m
 (2n/3+1; for Proxy and Alphabet also the n/2+1 one; Processing: the address stored in the NeoFS contract). -/
 theorem verify_needs_alphabet : methods.all verifyOK = true := by decide +kernel
 
-/-- the threshold expressions in the sources are the ones the lemmas below talk about -/
-theorem threshold_expressions :
-    multiaddressDefaultThreshold = "len(n)*2/3+1" ∧ multiaddressCommitteeThreshold = "len(n)/2+1" ∧
-      nnsCommitteeThreshold = "l-(l-1)/2" := by decide
+/-- The threshold expressions of the sources (regenerated from the Go AST as `TExpr` values: the first argument of the
+`CreateMultisigAccount` call of `common.Multiaddress`, for the Alphabet and for the committee branch, and of
+`nns.checkCommittee`) are accepted by the kernel-evaluated decision procedure `TExpr.computes` against `n*2/3+1` and
+`n/2+1`. Not a comparison of texts: any arithmetically equivalent way of writing them is accepted, anything else is not. -/
+theorem threshold_expressions_decided :
+    (multiaddressDefaultThresholdE.map (TExpr.computes · TExpr.specAlphabet)) = some true ∧
+    (multiaddressCommitteeThresholdE.map (TExpr.computes · TExpr.specMajority)) = some true ∧
+    (nnsCommitteeThresholdE.map (TExpr.computes · TExpr.specMajority)) = some true ∧
+    committeeMultisigThresholds.all (fun o => o.map (TExpr.computes · TExpr.specMajority) == some true) = true := by
+  decide +kernel
+
+/-- … and therefore, by the soundness theorem of the procedure, for EVERY number of keys n ≥ 1 (no bound) the source
+expressions evaluate under Go semantics (truncating division, fault on a zero divisor) to 2n/3+1 (Alphabet account) and
+n/2+1 (committee accounts of `common` and of NNS). -/
+theorem threshold_expressions (n : Nat) (h : 1 ≤ n) :
+    (multiaddressDefaultThresholdE.bind (TExpr.evalGo · n)) = some ((n * 2 / 3 + 1 : Nat) : Int) ∧
+    (multiaddressCommitteeThresholdE.bind (TExpr.evalGo · n)) = some ((n / 2 + 1 : Nat) : Int) ∧
+    (nnsCommitteeThresholdE.bind (TExpr.evalGo · n)) = some ((n / 2 + 1 : Nat) : Int) ∧
+    -- every multi-signature account the translator named `committee` because it is built in place over the committee keys
+    (∀ o ∈ committeeMultisigThresholds, (o.bind (TExpr.evalGo · n)) = some ((n / 2 + 1 : Nat) : Int)) := by
+  obtain ⟨h1, h2, h3, h4⟩ := threshold_expressions_decided
+  refine ⟨?_, ?_, ?_, ?_⟩
+  · cases he : multiaddressDefaultThresholdE with
+    | none => simp [he] at h1
+    | some e => simp [he] at h1; simp [TExpr.computes_sound h1 n h, TExpr.eval_specAlphabet]
+  · cases he : multiaddressCommitteeThresholdE with
+    | none => simp [he] at h2
+    | some e => simp [he] at h2; simp [TExpr.computes_sound h2 n h, TExpr.eval_specMajority]
+  · cases he : nnsCommitteeThresholdE with
+    | none => simp [he] at h3
+    | some e => simp [he] at h3; simp [TExpr.computes_sound h3 n h, TExpr.eval_specMajority]
+  · intro o ho
+    rw [List.all_eq_true] at h4
+    have := h4 o ho
+    cases o with
+    | none => simp at this
+    | some e => simp at this; simp [TExpr.computes_sound this n h, TExpr.eval_specMajority]
+
+-- the procedure is not vacuous: equivalent spellings are accepted, different thresholds are refused
+example : TExpr.computes (.sub .var (.div (.sub .var (.lit 1)) (.lit 3))) TExpr.specAlphabet = true := by decide +kernel
+example : TExpr.computes (.div (.add .var (.lit 1)) (.lit 2)) TExpr.specMajority = false := by decide +kernel   -- (l+1)/2
+example : TExpr.computes (.add (.div (.mul .var (.lit 2)) (.lit 3)) (.lit 1)) TExpr.specMajority = false := by decide +kernel
+example : TExpr.computes (.div (.lit 6) (.sub .var (.lit 2))) TExpr.specMajority = false := by decide +kernel   -- non-literal divisor
 
 /-- 2n/3+1 and n/2+1 are proper thresholds for every committee size and equal neo-go's
 `n-(n-1)/3` (validators / Alphabet) and `n-(n-1)/2` (committee majority); NNS's `l-(l-1)/2` is the latter. -/
